@@ -24,14 +24,19 @@ deriving Repr
 def lenTooLow (l : Int) : Bool := Gen.pktLenLow.eval l 0
 def lenTooHigh (l : Int) (max : Nat) : Bool := Gen.pktLenHigh.eval l max
 
+/-- `shouldContinue`: the receive loop goes on after nil and the three
+    not-found errors (tie: `shouldContinueCases`). -/
+def FrameRes.continues : FrameRes → Bool
+  | .ok _ => true
+  | .notFound _ _ _ _ => true
+  | .fail _ => false
+
 /-- Finish a frame: `drain` discards what is left of the declared length; a
-    short stream is an unexpected EOF, which replaces a nil error only. -/
+    short stream is an unexpected EOF, which replaces every result the
+    receive loop would continue after (nil and the not-found errors). -/
 def finishFrame (res : FrameRes) (rem : Nat) (s : Bytes) : FrameStep :=
   if rem ≤ s.length then ⟨res, s.drop rem⟩
-  else
-    match res with
-    | .ok _ => ⟨.fail .ueof, []⟩
-    | r => ⟨r, []⟩
+  else if res.continues then ⟨.fail .ueof, []⟩ else ⟨res, []⟩
 
 /-- `packetizer.NextFrame` on the ideal stream. -/
 def nextFrame (max : Nat) (ctx : Ctx) (s : Bytes) : FrameStep :=
@@ -51,13 +56,6 @@ def nextFrame (max : Nat) (ctx : Ctx) (s : Bytes) : FrameStep :=
           match runFrame (decodeRPC ctx L (nb.toNat - 0x90)) rem r with
           | (⟨.error e, r'⟩, rem') => finishFrame (.fail (wrapBodyErr e)) rem' r'
           | (⟨.ok fr, r'⟩, rem') => finishFrame fr rem' r'
-
-/-- `shouldContinue`: the receive loop goes on after nil and the three
-    not-found errors (tie: `shouldContinueCases`). -/
-def FrameRes.continues : FrameRes → Bool
-  | .ok _ => true
-  | .notFound _ _ _ _ => true
-  | .fail _ => false
 
 /-- The receive loop: frames until the first fatal result.  `fuel` bounds the
     number of frames (each consumes at least one byte). -/
